@@ -51,7 +51,7 @@ fn shape(idx: usize, rev: bool) -> ([usize; 3], usize) {
     }
 }
 
-fn mk_algos(idx: usize, rev: bool, speeds: &[f32; 3], plain: bool) -> Algorithms {
+pub fn mk_algos(idx: usize, rev: bool, speeds: &[f32; 3], plain: bool) -> Algorithms {
     let (order, n) = shape(idx, rev);
     let mut v = SmallVec::new();
     let mut i = 0;
@@ -63,7 +63,7 @@ fn mk_algos(idx: usize, rev: bool, speeds: &[f32; 3], plain: bool) -> Algorithms
     Algorithms { algorithm_speeds: v, allow_unencrypted: plain }
 }
 
-fn mk_state(algorithms: Algorithms) -> InitState<NoPayload> {
+pub fn mk_state(algorithms: Algorithms) -> InitState<NoPayload> {
     let kp = Ed25519KeyPair::from_seed_unchecked(&[7u8; 32]).unwrap();
     let tk: VArc<[Ed25519PublicKey]> = VArc::new([[0u8; 32]]);
     InitState {
@@ -167,3 +167,16 @@ macro_rules! sel_inst {
     )*};
 }
 sel_inst!(c06_sel_a00_b00 = (0, 0), c06_sel_a00_b01 = (0, 1), c06_sel_a00_b02 = (0, 2), c06_sel_a00_b03 = (0, 3), c06_sel_a00_b04 = (0, 4), c06_sel_a00_b05 = (0, 5), c06_sel_a00_b06 = (0, 6), c06_sel_a00_b07 = (0, 7), c06_sel_a00_b08 = (0, 8), c06_sel_a00_b09 = (0, 9), c06_sel_a00_b10 = (0, 10), c06_sel_a00_b11 = (0, 11), c06_sel_a00_b12 = (0, 12), c06_sel_a00_b13 = (0, 13), c06_sel_a00_b14 = (0, 14), c06_sel_a00_b15 = (0, 15), c06_sel_a01_b00 = (1, 0), c06_sel_a01_b01 = (1, 1), c06_sel_a01_b02 = (1, 2), c06_sel_a01_b03 = (1, 3), c06_sel_a01_b04 = (1, 4), c06_sel_a01_b05 = (1, 5), c06_sel_a01_b06 = (1, 6), c06_sel_a01_b07 = (1, 7), c06_sel_a01_b08 = (1, 8), c06_sel_a01_b09 = (1, 9), c06_sel_a01_b10 = (1, 10), c06_sel_a01_b11 = (1, 11), c06_sel_a01_b12 = (1, 12), c06_sel_a01_b13 = (1, 13), c06_sel_a01_b14 = (1, 14), c06_sel_a01_b15 = (1, 15), c06_sel_a02_b00 = (2, 0), c06_sel_a02_b01 = (2, 1), c06_sel_a02_b02 = (2, 2), c06_sel_a02_b03 = (2, 3), c06_sel_a02_b04 = (2, 4), c06_sel_a02_b05 = (2, 5), c06_sel_a02_b06 = (2, 6), c06_sel_a02_b07 = (2, 7), c06_sel_a02_b08 = (2, 8), c06_sel_a02_b09 = (2, 9), c06_sel_a02_b10 = (2, 10), c06_sel_a02_b11 = (2, 11), c06_sel_a02_b12 = (2, 12), c06_sel_a02_b13 = (2, 13), c06_sel_a02_b14 = (2, 14), c06_sel_a02_b15 = (2, 15), c06_sel_a03_b00 = (3, 0), c06_sel_a03_b01 = (3, 1), c06_sel_a03_b02 = (3, 2), c06_sel_a03_b03 = (3, 3), c06_sel_a03_b04 = (3, 4), c06_sel_a03_b05 = (3, 5), c06_sel_a03_b06 = (3, 6), c06_sel_a03_b07 = (3, 7), c06_sel_a03_b08 = (3, 8), c06_sel_a03_b09 = (3, 9), c06_sel_a03_b10 = (3, 10), c06_sel_a03_b11 = (3, 11), c06_sel_a03_b12 = (3, 12), c06_sel_a03_b13 = (3, 13), c06_sel_a03_b14 = (3, 14), c06_sel_a03_b15 = (3, 15), c06_sel_a04_b00 = (4, 0), c06_sel_a04_b01 = (4, 1), c06_sel_a04_b02 = (4, 2), c06_sel_a04_b03 = (4, 3), c06_sel_a04_b04 = (4, 4), c06_sel_a04_b05 = (4, 5), c06_sel_a04_b06 = (4, 6), c06_sel_a04_b07 = (4, 7), c06_sel_a04_b08 = (4, 8), c06_sel_a04_b09 = (4, 9), c06_sel_a04_b10 = (4, 10), c06_sel_a04_b11 = (4, 11), c06_sel_a04_b12 = (4, 12), c06_sel_a04_b13 = (4, 13), c06_sel_a04_b14 = (4, 14), c06_sel_a04_b15 = (4, 15), c06_sel_a05_b00 = (5, 0), c06_sel_a05_b01 = (5, 1), c06_sel_a05_b02 = (5, 2), c06_sel_a05_b03 = (5, 3), c06_sel_a05_b04 = (5, 4), c06_sel_a05_b05 = (5, 5), c06_sel_a05_b06 = (5, 6), c06_sel_a05_b07 = (5, 7), c06_sel_a05_b08 = (5, 8), c06_sel_a05_b09 = (5, 9), c06_sel_a05_b10 = (5, 10), c06_sel_a05_b11 = (5, 11), c06_sel_a05_b12 = (5, 12), c06_sel_a05_b13 = (5, 13), c06_sel_a05_b14 = (5, 14), c06_sel_a05_b15 = (5, 15), c06_sel_a06_b00 = (6, 0), c06_sel_a06_b01 = (6, 1), c06_sel_a06_b02 = (6, 2), c06_sel_a06_b03 = (6, 3), c06_sel_a06_b04 = (6, 4), c06_sel_a06_b05 = (6, 5), c06_sel_a06_b06 = (6, 6), c06_sel_a06_b07 = (6, 7), c06_sel_a06_b08 = (6, 8), c06_sel_a06_b09 = (6, 9), c06_sel_a06_b10 = (6, 10), c06_sel_a06_b11 = (6, 11), c06_sel_a06_b12 = (6, 12), c06_sel_a06_b13 = (6, 13), c06_sel_a06_b14 = (6, 14), c06_sel_a06_b15 = (6, 15), c06_sel_a07_b00 = (7, 0), c06_sel_a07_b01 = (7, 1), c06_sel_a07_b02 = (7, 2), c06_sel_a07_b03 = (7, 3), c06_sel_a07_b04 = (7, 4), c06_sel_a07_b05 = (7, 5), c06_sel_a07_b06 = (7, 6), c06_sel_a07_b07 = (7, 7), c06_sel_a07_b08 = (7, 8), c06_sel_a07_b09 = (7, 9), c06_sel_a07_b10 = (7, 10), c06_sel_a07_b11 = (7, 11), c06_sel_a07_b12 = (7, 12), c06_sel_a07_b13 = (7, 13), c06_sel_a07_b14 = (7, 14), c06_sel_a07_b15 = (7, 15), c06_sel_a08_b00 = (8, 0), c06_sel_a08_b01 = (8, 1), c06_sel_a08_b02 = (8, 2), c06_sel_a08_b03 = (8, 3), c06_sel_a08_b04 = (8, 4), c06_sel_a08_b05 = (8, 5), c06_sel_a08_b06 = (8, 6), c06_sel_a08_b07 = (8, 7), c06_sel_a08_b08 = (8, 8), c06_sel_a08_b09 = (8, 9), c06_sel_a08_b10 = (8, 10), c06_sel_a08_b11 = (8, 11), c06_sel_a08_b12 = (8, 12), c06_sel_a08_b13 = (8, 13), c06_sel_a08_b14 = (8, 14), c06_sel_a08_b15 = (8, 15), c06_sel_a09_b00 = (9, 0), c06_sel_a09_b01 = (9, 1), c06_sel_a09_b02 = (9, 2), c06_sel_a09_b03 = (9, 3), c06_sel_a09_b04 = (9, 4), c06_sel_a09_b05 = (9, 5), c06_sel_a09_b06 = (9, 6), c06_sel_a09_b07 = (9, 7), c06_sel_a09_b08 = (9, 8), c06_sel_a09_b09 = (9, 9), c06_sel_a09_b10 = (9, 10), c06_sel_a09_b11 = (9, 11), c06_sel_a09_b12 = (9, 12), c06_sel_a09_b13 = (9, 13), c06_sel_a09_b14 = (9, 14), c06_sel_a09_b15 = (9, 15), c06_sel_a10_b00 = (10, 0), c06_sel_a10_b01 = (10, 1), c06_sel_a10_b02 = (10, 2), c06_sel_a10_b03 = (10, 3), c06_sel_a10_b04 = (10, 4), c06_sel_a10_b05 = (10, 5), c06_sel_a10_b06 = (10, 6), c06_sel_a10_b07 = (10, 7), c06_sel_a10_b08 = (10, 8), c06_sel_a10_b09 = (10, 9), c06_sel_a10_b10 = (10, 10), c06_sel_a10_b11 = (10, 11), c06_sel_a10_b12 = (10, 12), c06_sel_a10_b13 = (10, 13), c06_sel_a10_b14 = (10, 14), c06_sel_a10_b15 = (10, 15), c06_sel_a11_b00 = (11, 0), c06_sel_a11_b01 = (11, 1), c06_sel_a11_b02 = (11, 2), c06_sel_a11_b03 = (11, 3), c06_sel_a11_b04 = (11, 4), c06_sel_a11_b05 = (11, 5), c06_sel_a11_b06 = (11, 6), c06_sel_a11_b07 = (11, 7), c06_sel_a11_b08 = (11, 8), c06_sel_a11_b09 = (11, 9), c06_sel_a11_b10 = (11, 10), c06_sel_a11_b11 = (11, 11), c06_sel_a11_b12 = (11, 12), c06_sel_a11_b13 = (11, 13), c06_sel_a11_b14 = (11, 14), c06_sel_a11_b15 = (11, 15), c06_sel_a12_b00 = (12, 0), c06_sel_a12_b01 = (12, 1), c06_sel_a12_b02 = (12, 2), c06_sel_a12_b03 = (12, 3), c06_sel_a12_b04 = (12, 4), c06_sel_a12_b05 = (12, 5), c06_sel_a12_b06 = (12, 6), c06_sel_a12_b07 = (12, 7), c06_sel_a12_b08 = (12, 8), c06_sel_a12_b09 = (12, 9), c06_sel_a12_b10 = (12, 10), c06_sel_a12_b11 = (12, 11), c06_sel_a12_b12 = (12, 12), c06_sel_a12_b13 = (12, 13), c06_sel_a12_b14 = (12, 14), c06_sel_a12_b15 = (12, 15), c06_sel_a13_b00 = (13, 0), c06_sel_a13_b01 = (13, 1), c06_sel_a13_b02 = (13, 2), c06_sel_a13_b03 = (13, 3), c06_sel_a13_b04 = (13, 4), c06_sel_a13_b05 = (13, 5), c06_sel_a13_b06 = (13, 6), c06_sel_a13_b07 = (13, 7), c06_sel_a13_b08 = (13, 8), c06_sel_a13_b09 = (13, 9), c06_sel_a13_b10 = (13, 10), c06_sel_a13_b11 = (13, 11), c06_sel_a13_b12 = (13, 12), c06_sel_a13_b13 = (13, 13), c06_sel_a13_b14 = (13, 14), c06_sel_a13_b15 = (13, 15), c06_sel_a14_b00 = (14, 0), c06_sel_a14_b01 = (14, 1), c06_sel_a14_b02 = (14, 2), c06_sel_a14_b03 = (14, 3), c06_sel_a14_b04 = (14, 4), c06_sel_a14_b05 = (14, 5), c06_sel_a14_b06 = (14, 6), c06_sel_a14_b07 = (14, 7), c06_sel_a14_b08 = (14, 8), c06_sel_a14_b09 = (14, 9), c06_sel_a14_b10 = (14, 10), c06_sel_a14_b11 = (14, 11), c06_sel_a14_b12 = (14, 12), c06_sel_a14_b13 = (14, 13), c06_sel_a14_b14 = (14, 14), c06_sel_a14_b15 = (14, 15), c06_sel_a15_b00 = (15, 0), c06_sel_a15_b01 = (15, 1), c06_sel_a15_b02 = (15, 2), c06_sel_a15_b03 = (15, 3), c06_sel_a15_b04 = (15, 4), c06_sel_a15_b05 = (15, 5), c06_sel_a15_b06 = (15, 6), c06_sel_a15_b07 = (15, 7), c06_sel_a15_b08 = (15, 8), c06_sel_a15_b09 = (15, 9), c06_sel_a15_b10 = (15, 10), c06_sel_a15_b11 = (15, 11), c06_sel_a15_b12 = (15, 12), c06_sel_a15_b13 = (15, 13), c06_sel_a15_b14 = (15, 14), c06_sel_a15_b15 = (15, 15));
+
+/// Stand-in for InitState::handle_init in the dispatch harnesses (C08-H2): what a sender WITHOUT a trusted key can
+/// cause - the parser/verifier rejects the message with some error before any state or the buffer is touched. (That
+/// the real parser does so is the part of C01 that is out of reach; see DESIGN.)
+pub fn handle_init_rejects<P: Payload>(_s: &mut InitState<P>, _out: &mut MsgBuffer) -> Result<InitResult<P>, Error> {
+    let k: u8 = kani::any();
+    Err(match k % 4 {
+        0 => Error::Parse("Init message too short"),
+        1 => Error::Crypto("untrusted peer"),
+        2 => Error::Crypto("invalid signature"),
+        _ => Error::CryptoInit("Invalid size for stage field"),
+    })
+}
